@@ -113,6 +113,65 @@ pub fn palettes(seed: u64, n_random: usize) -> Vec<(String, [Rgb3; 16])> {
         }
         v.push((format!("near-builtin#{k}"), p));
     }
+    // palettes with structure a shortcut could key on: the built-in colours in another slot order, a bright half that
+    // repeats the normal half (all but bright black), entries one step apart in a single channel
+    let perm = |base: &[Rgb3; 16], order: &[usize; 16]| {
+        let mut p = [(0u8, 0u8, 0u8); 16];
+        for (i, o) in order.iter().enumerate() {
+            p[i] = base[*o];
+        }
+        p
+    };
+    let reversed: [usize; 16] = core::array::from_fn(|i| 15 - i);
+    let rotated: [usize; 16] = core::array::from_fn(|i| (i + 8) % 16);
+    let attr_order: [usize; 16] = [0, 4, 2, 6, 1, 5, 3, 7, 8, 12, 10, 14, 9, 13, 11, 15];
+    let mut shuffled: [usize; 16] = core::array::from_fn(|i| i);
+    for i in (1..16).rev() {
+        let j = rng.below(i as u64 + 1) as usize;
+        shuffled.swap(i, j);
+    }
+    v.push(("VGA-reversed".into(), perm(&REF_VGA, &reversed)));
+    v.push(("WIN10-bright-half-first".into(), perm(&REF_WIN10, &rotated)));
+    v.push(("VGA-attribute-order".into(), perm(&REF_VGA, &attr_order)));
+    v.push(("WIN10-shuffled".into(), perm(&REF_WIN10, &shuffled)));
+    for (name, base) in [("VGA", REF_VGA), ("WIN10", REF_WIN10)] {
+        let mut p = base;
+        for i in 9..16 {
+            p[i] = p[i - 8];
+        }
+        p[8] = (85, 85, 85);
+        v.push((format!("{name}-bright-repeats-normal"), p));
+    }
+    for kind in 0..3u8 {
+        let mut p = [(0u8, 0u8, 0u8); 16];
+        for i in 0..8 {
+            let c = match kind {
+                0 => (rng.byte(), 1 + rng.below(254) as u8, rng.byte()),
+                1 => (255, rng.byte(), 1 + rng.below(254) as u8),
+                _ => (100 + i as u8, 100, 100),
+            };
+            let (lo, hi) = (i, i + 8);
+            p[hi] = c;
+            p[lo] = match kind {
+                0 => (c.0, if i % 2 == 0 { c.1 - 1 } else { c.1 + 1 }, c.2),
+                1 => (c.0, c.1, if i % 2 == 0 { c.2 - 1 } else { c.2 + 1 }),
+                _ => (c.0, 100, 101),
+            };
+        }
+        v.push((format!("one-step-apart#{kind}"), p));
+    }
+    // every entry the same corner of the colour cube (the opposite corner is then at the largest possible distance from
+    // all of them), and the built-in palettes with only the first / only the last slot changed
+    v.push(("all-white".into(), [(255, 255, 255); 16]));
+    v.push(("all-black".into(), [(0, 0, 0); 16]));
+    for (name, base) in [("VGA", REF_VGA), ("WIN10", REF_WIN10)] {
+        let mut p = base;
+        p[0] = (40, 40, 40);
+        v.push((format!("{name}-black-recoloured"), p));
+        let mut p = base;
+        p[15] = (200, 210, 220);
+        v.push((format!("{name}-bright-white-recoloured"), p));
+    }
     v
 }
 
@@ -242,8 +301,8 @@ pub fn run(cfg: &Cfg) -> Stats {
                 st.nontrivial_enumerated += 16 + 256 + 16 + 240;
                 match crate::guarded(|| check_finite(name, p, &xt)) {
                     Ok(Ok(())) => {}
-                    Ok(Err((sig, msg))) => st.viol(&sig, msg, Case::new("c10-finite").n(pi as i64).n(cfg.seed as i64)),
-                    Err(pn) => st.viol("c10:panic", format!("panicked: {pn}"), Case::new("c10-finite").n(pi as i64).n(cfg.seed as i64)),
+                    Ok(Err((sig, msg))) => st.viol(&sig, msg, Case::new("c10-finite").n(pi as i64).n(cfg.seed as i64).n(n_rand_pal as i64)),
+                    Err(pn) => st.viol("c10:panic", format!("panicked: {pn}"), Case::new("c10-finite").n(pi as i64).n(cfg.seed as i64).n(n_rand_pal as i64)),
                 }
             }
         }
@@ -258,8 +317,8 @@ pub fn run(cfg: &Cfg) -> Stats {
                 }
                 match crate::guarded(|| check_rgb(c, name, p, real[pi], &xt, pi == 0)) {
                     Ok(Ok(())) => {}
-                    Ok(Err((sig, msg))) => st.viol(&sig, msg, Case::new("c10-rgb").n(c.0 as i64).n(c.1 as i64).n(c.2 as i64).n(pi as i64).n(cfg.seed as i64)),
-                    Err(pn) => st.viol("c10:panic", format!("panicked: {pn}"), Case::new("c10-rgb").n(c.0 as i64).n(c.1 as i64).n(c.2 as i64).n(pi as i64).n(cfg.seed as i64)),
+                    Ok(Err((sig, msg))) => st.viol(&sig, msg, Case::new("c10-rgb").n(c.0 as i64).n(c.1 as i64).n(c.2 as i64).n(pi as i64).n(cfg.seed as i64).n(n_rand_pal as i64)),
+                    Err(pn) => st.viol("c10:panic", format!("panicked: {pn}"), Case::new("c10-rgb").n(c.0 as i64).n(c.1 as i64).n(c.2 as i64).n(pi as i64).n(cfg.seed as i64).n(n_rand_pal as i64)),
                 }
             }
         };
@@ -343,12 +402,12 @@ pub fn replay(case: &Case) -> Result<String, Viol> {
     let r = match case.kind.as_str() {
         "c10-builtin" => crate::guarded(check_builtin),
         "c10-finite" => crate::guarded(|| {
-            let pals = palettes(g(1) as u64, 8);
+            let pals = palettes(g(1) as u64, if case.nums.len() > 2 { g(2) as usize } else { 8 });
             let (name, p) = &pals[g(0) as usize % pals.len()];
             check_finite(name, p, &xt)
         }),
         _ => crate::guarded(|| {
-            let pals = palettes(g(4) as u64, 8);
+            let pals = palettes(g(4) as u64, if case.nums.len() > 5 { g(5) as usize } else { 8 });
             let (name, p) = &pals[g(3) as usize % pals.len()];
             check_rgb((g(0) as u8, g(1) as u8, g(2) as u8), name, p, pal(p), &xt, true)
         }),
